@@ -32,6 +32,10 @@ pub trait Kind<'a>: ValueInput<'a, Token: Tok, Span: SpanObs> + Sized + 'a {
     fn toslice<E: ErrTy<'a, Self>>(_p: P<'a, Self, E>) -> Result<P<'a, Self, E>, String> {
         Err(format!("to_slice unsupported on input kind {}", Self::NAME))
     }
+    /// address of the caller's buffer and element size, where the kind has slices (zero-copy check of to_slice)
+    fn base(&self) -> (usize, usize) {
+        (0, 1)
+    }
     /// any_ref() / select_ref!: only inputs that can lend their tokens (BorrowInput)
     fn any_ref<E: ErrTy<'a, Self>>() -> Result<P<'a, Self, E>, String> {
         Err(format!("input kind {} cannot lend tokens", Self::NAME))
@@ -66,6 +70,9 @@ fn slice_val(ptr: usize, len: usize) -> Val {
 
 impl<'a> Kind<'a> for &'a str {
     const NAME: &'static str = "str";
+    fn base(&self) -> (usize, usize) {
+        (self.as_ptr() as usize, 1)
+    }
     fn toslice<E: ErrTy<'a, Self>>(p: P<'a, Self, E>) -> Result<P<'a, Self, E>, String> {
         Ok(p.to_slice().map(|s: &'a str| slice_val(s.as_ptr() as usize, s.len())).boxed())
     }
@@ -73,6 +80,9 @@ impl<'a> Kind<'a> for &'a str {
 impl<'a> Kind<'a> for &'a [char] {
     const NAME: &'static str = "slice";
     by_ref_impl!();
+    fn base(&self) -> (usize, usize) {
+        (self.as_ptr() as usize, std::mem::size_of::<char>())
+    }
     fn toslice<E: ErrTy<'a, Self>>(p: P<'a, Self, E>) -> Result<P<'a, Self, E>, String> {
         Ok(p.to_slice().map(|s: &'a [char]| slice_val(s.as_ptr() as usize, s.len())).boxed())
     }
@@ -90,6 +100,9 @@ pub type CSpan = chumsky::span::SimpleSpan<usize, i64>;
 impl<'a, const N: usize> Kind<'a> for &'a [char; N] {
     const NAME: &'static str = "array";
     by_ref_impl!();
+    fn base(&self) -> (usize, usize) {
+        (self.as_ptr() as usize, std::mem::size_of::<char>())
+    }
     fn toslice<E: ErrTy<'a, Self>>(p: P<'a, Self, E>) -> Result<P<'a, Self, E>, String> {
         Ok(p.to_slice().map(|s: &'a [char]| slice_val(s.as_ptr() as usize, s.len())).boxed())
     }
@@ -97,6 +110,9 @@ impl<'a, const N: usize> Kind<'a> for &'a [char; N] {
 impl<'a> Kind<'a> for &'a [u8] {
     const NAME: &'static str = "bytes";
     by_ref_impl!();
+    fn base(&self) -> (usize, usize) {
+        (self.as_ptr() as usize, 1)
+    }
     fn toslice<E: ErrTy<'a, Self>>(p: P<'a, Self, E>) -> Result<P<'a, Self, E>, String> {
         Ok(p.to_slice().map(|s: &'a [u8]| slice_val(s.as_ptr() as usize, s.len())).boxed())
     }
